@@ -49,7 +49,7 @@ impl F {
         match self {
             F::Top => "c(v)".into(),
             F::Bot => "c(f)".into(),
-            F::Atom(i) => names[*i].clone(),
+            F::Atom(i) => label_text(&names[*i]),
             F::Not(a) => format!("neg({})", a.text(names)),
             F::And(a, b) => format!("and({},{})", a.text(names), b.text(names)),
             F::Or(a, b) => format!("or({},{})", a.text(names), b.text(names)),
@@ -143,6 +143,35 @@ impl F {
     }
 }
 
+/// A label as it is written in the input format: bare if ASCII-alphanumeric, quoted otherwise
+/// (the documented syntax: alphanumeric or quoted labels; a quoted label must not contain `"`).
+pub fn label_text(name: &str) -> String {
+    if !name.is_empty() && name.chars().all(|c| c.is_ascii_alphanumeric()) {
+        name.to_string()
+    } else {
+        format!("\"{name}\"")
+    }
+}
+
+/// Labels that stress name handling: number-like, keyword-like, with spaces, punctuation,
+/// non-ASCII letters, very long. (Not used: characters out of `! & | ^ = < > ( ) ? :` — the
+/// parser accepts them inside quotes but the biodivine bridge panics on such variable names;
+/// that is an input-domain limitation of the bridge, outside the claimed properties.)
+pub const ODD_LABELS: [&str; 13] = ["10", "2", "01", "and", "c", "neg", "a b", "x-1", "ü", "日本", "a,b", "Z", "averyveryveryveryveryveryveryveryveryverylonglabel0123456789"];
+
+/// Replace the labels of a spec by distinct odd ones (the formulas refer to statements by
+/// position, so nothing else changes).
+pub fn odd_names(rng: &mut Rng, spec: &mut AdfSpec) {
+    let mut pool: Vec<&str> = ODD_LABELS.to_vec();
+    for i in 0..spec.names.len() {
+        if pool.is_empty() {
+            break;
+        }
+        let k = rng.below(pool.len() as u64) as usize;
+        spec.names[i] = pool.remove(k).to_string();
+    }
+}
+
 /// Random formula over `n` atoms.
 pub fn gen_formula(rng: &mut Rng, n: usize, depth: u32) -> F {
     if depth == 0 || rng.chance(1, 4) {
@@ -222,10 +251,10 @@ impl AdfSpec {
     pub fn text(&self) -> String {
         let mut s = String::new();
         for n in &self.names {
-            s.push_str(&format!("s({n})."));
+            s.push_str(&format!("s({}).", label_text(n)));
         }
         for i in &self.ac_order {
-            s.push_str(&format!("ac({},{}).", self.names[*i], self.acs[*i].text(&self.names)));
+            s.push_str(&format!("ac({},{}).", label_text(&self.names[*i]), self.acs[*i].text(&self.names)));
         }
         s
     }
